@@ -103,3 +103,15 @@ pub fn limit_stack_depth(depth_limit: usize) -> StackDepthLimitOverrideGuard {
 pub fn set_stack_depth_limit(depth_limit: usize) {
 	std::mem::forget(limit_stack_depth(depth_limit));
 }
+
+/// Verification hook: number of frames currently counted on this thread
+#[cfg(jrsonnet_verif)]
+pub fn verif_current_depth() -> usize {
+	STACK_LIMIT.with(|limit| limit.current_depth.get())
+}
+
+/// Verification hook: frame limit currently configured on this thread
+#[cfg(jrsonnet_verif)]
+pub fn verif_stack_limit() -> usize {
+	STACK_LIMIT.with(|limit| limit.max_stack_size.get())
+}
